@@ -202,3 +202,129 @@ def writer_tokens(fx, p):
         if re.search(r"::write_bytes$", name) or re.search(r"::write_bytes$", decl):
             toks.append(("sub", name, args, line))
     return toks
+
+
+_ENV_CACHE = {}
+
+
+def closure_env(fx, body, depth=0):
+    """Upvar name -> expression captured at the closure's construction site in its parent body
+    (recursively substituted through enclosing closures). Values from the first construction found."""
+    key = (id(fx), body.name)
+    if key in _ENV_CACHE:
+        return _ENV_CACHE[key]
+    env = {}
+    _ENV_CACHE[key] = env
+    if body.kind not in ("closure", "coroutine") or not body.parent or depth > 6:
+        return env
+    parent = fx.bodies.get(body.parent)
+    if parent is None or parent.unit != body.unit:
+        cands = [b for b in fx.bodies.values() if b.name == body.parent and b.unit == body.unit]
+        parent = cands[0] if cands else None
+    if parent is None:
+        return env
+    penv = closure_env(fx, parent, depth + 1)
+    # upvar field index -> name
+    idx_name = {}
+    for k, name in body.upvar_names.items():
+        f = [e for e in k if e[0] == "f"]
+        if f:
+            idx_name[int(f[0][1])] = name
+    found = None
+    try:
+        ps = sym.Evaluator(fx, parent, upvars=penv, max_paths=60000).run()
+    except sym.PathExplosion:
+        ps = []
+    for p in ps:
+        for m in list(p.mem.values()) + [e[2] for e in p.effects if e[0] == "call"] + [p.ret]:
+            if m is None:
+                continue
+            items = m if isinstance(m, tuple) and m and not isinstance(m[0], str) else (m,)
+            for it in items:
+                for x in walk(it):
+                    if x[0] == "clo" and x[1] == body.name:
+                        found = x
+                        break
+                if found:
+                    break
+            if found:
+                break
+        if found:
+            break
+    if found:
+        for i, cap in enumerate(found[2]):
+            if i in idx_name:
+                env[idx_name[i]] = cap
+    return env
+
+
+def eval_with_env(fx, body, **kw):
+    """Paths of a closure body with upvars substituted by the expressions captured in its parents."""
+    return sym.Evaluator(fx, body, upvars=closure_env(fx, body), **kw).run()
+
+
+_PATH_CACHE = {}
+
+
+def cpaths(fx, body, unroll=1):
+    """Cached path enumeration (closure upvars substituted from their construction sites)."""
+    key = (id(fx), body.name, body.unit, unroll)
+    if key not in _PATH_CACHE:
+        _PATH_CACHE[key] = sym.Evaluator(fx, body, upvars=closure_env(fx, body), unroll=unroll, max_paths=80000).run()
+    return _PATH_CACHE[key]
+
+
+def call_args(fx, caller, callee_rx):
+    """Distinct (line, callee, args) of calls matching callee_rx over all paths of caller."""
+    r = re.compile(callee_rx)
+    seen = {}
+    for p in cpaths(fx, caller):
+        for e in p.effects:
+            if e[0] == "call" and (r.search(e[1]) or r.search(e[5])):
+                args = tuple(sym.strip_after(a) for a in e[2])
+                k = (e[3][0], tuple(show(a) for a in args))
+                if k not in seen:
+                    seen[k] = (e[4], e[1], args)
+    return list(seen.values())
+
+
+_ROOTS_CACHE = {}
+
+
+def param_roots(fx, body, pidx, depth=10):
+    """Origins of parameter #pidx (1-based MIR local) of `body` over all workspace callers:
+    [(caller body, line, expr)]; bare parameters of a caller (or of the function enclosing a calling closure)
+    are chased further up."""
+    key = (id(fx), body.name, body.unit, pidx)
+    if key in _ROOTS_CACHE:
+        return _ROOTS_CACHE[key] or []
+    _ROOTS_CACHE[key] = None  # in progress (cycle guard)
+    out = []
+    if depth > 0:
+        target = re.escape(body.short) + "$"
+        for caller in list(fx.bodies.values()):
+            if caller.kind == "promoted" or in_test_code(caller):
+                continue
+            if not any(True for _ in caller.calls(target)):
+                continue
+            for line, callee, args in call_args(fx, caller, target):
+                if pidx - 1 >= len(args):
+                    continue
+                a = args[pidx - 1]
+                if a[0] == "p":
+                    owner = fx.bodies.get(a[3]) if len(a) > 3 else caller
+                    if owner is None or owner.kind == "promoted":
+                        owner = caller
+                    up = param_roots(fx, owner, a[1], depth - 1)
+                    out.extend(up if up else [(caller, line, a)])
+                else:
+                    out.append((caller, line, a))
+    _ROOTS_CACHE[key] = out
+    return out
+
+
+def param_index(body, name):
+    for l, n in body.debug_names.items():
+        if n == name and 1 <= l <= body.arg_count:
+            return l
+    raise AnchorMissing("%s has no parameter named %s" % (body.short, name))
